@@ -56,20 +56,56 @@ def column_array(dt, cells):
     return np.array(["".join(chr(c) for c in cs) for cs in cells], dtype=np_dtype(dt))
 
 
+def exact_value(dt, cell):
+    """the value a stored item denotes, as an exact python object"""
+    k = kind(dt)
+    if k == "i":
+        return int(cell)
+    if k == "f":
+        x = column_array(dt, [cell])[0]
+        return float("nan") if x != x else float(x)
+    return "".join(chr(c) for c in cell).rstrip("\0")
+
+
 INT_ALPHA = [0, 1, 2, 3, -1]
 INT_BIG = [127, -128, 255, 256, 65535, 2 ** 31 - 1, 2 ** 32, 2 ** 33 + 1, -2 ** 31]
 FLT_ALPHA = [0.0, 1.0, 2.0, 3.0, -1.0, 1.5]
 FLT_SPECIAL = [-0.0, float("nan"), float("inf"), -float("inf")]
 STR_ALPHA = ["", "a", "b", "ab", "ba", "abc", "a\0b"]
+# the edges of exact representability: float32 (24-bit significand), int32/uint32 ranges, float64
+# (53 bits; ties to even: 2**53+1 -> 2**53, 2**53+3 -> 2**53+4, 2**54-1 -> 2**54, 2**63-1 -> 2**63),
+# the int64 range.  Integers travel as exact integers, floats as bit patterns - never as floats.
+INT_EDGE = [2 ** 24 - 1, 2 ** 24, 2 ** 24 + 1, 2 ** 24 + 2, 2 ** 32 - 1, 2 ** 32 - 2,
+            2 ** 53 - 1, 2 ** 53, 2 ** 53 + 1, 2 ** 53 + 2, 2 ** 53 + 3, 2 ** 53 + 4, 2 ** 54 - 1, 2 ** 54 + 2, 2 ** 54 + 6,
+            -(2 ** 53), -(2 ** 53 + 1), -(2 ** 53 + 3), 2 ** 60 + 2 ** 7, 2 ** 60 + 2 ** 7 + 1, 2 ** 60 + 3 * 2 ** 7,
+            1237648720693755904 + 14, 1237648720693755904 + 15, 2 ** 62 + 1, 2 ** 63 - 1, 2 ** 63 - 2, 2 ** 63 - 513, 2 ** 63 - 512,
+            -2 ** 63, -2 ** 63 + 1]
+FLT_EDGE = [0.5, 2.0 ** 24, 2.0 ** 24 + 2, 2.0 ** 24 + 1, 2.0 ** 32 - 1, 2.0 ** 53, 2.0 ** 53 + 2, 2.0 ** 53 + 4, -(2.0 ** 53), 2.0 ** 54,
+            2.0 ** 60, 2.0 ** 62, 2.0 ** 63, -(2.0 ** 63), 2.0 ** 63 - 1024, 2.0 ** 64]
 
 
-def alphabet(dt, special=False, big=False):
+def representable(v, dt):
+    """is the number v (python int or float, exact) an item of dtype dt?"""
     k = kind(dt)
     if k == "i":
-        vals = INT_ALPHA + (INT_BIG if big else [])
+        return v == int(v) and fits(int(v), dt)
+    if k == "f":
+        if dt == "f8":
+            x = float(v)
+        else:
+            x = float(np.float32(v))
+        return x == v and x not in (float("inf"), -float("inf"))     # python compares int with float exactly
+    return False
+
+
+def alphabet(dt, special=False, big=False, edge=False):
+    k = kind(dt)
+    if k == "i":
+        vals = INT_ALPHA + (INT_BIG if big else []) + (INT_EDGE if edge else [])
         return [v for v in vals if fits(v, dt)]
     if k == "f":
-        return [fbits(v, dt) for v in FLT_ALPHA + (FLT_SPECIAL if special else [])]
+        return [fbits(v, dt) for v in FLT_ALPHA + (FLT_SPECIAL if special else [])] + \
+            ([fbits(v, dt) for v in FLT_EDGE if representable(v, dt)] if edge else [])
     w = int(dt[1:])
     out = [[ord(c) for c in s] for s in STR_ALPHA if len(s) <= w]
     if special and w >= 2:
@@ -267,10 +303,40 @@ def shape_tag(ca, cb):
     return "1n" if len(ca) == 1 else "n1"
 
 
+def compared_columns(ca, cb):
+    """the (left column, right column) pairs whose items a join of this shape compares"""
+    if len(ca) == len(cb):
+        return list(zip(ca, cb))
+    return [(x, y) for x in ca for y in cb]      # 1-n / n-1: the single key against every key
+
+
+def inexact_pairing(case):
+    """Signature of F-C11d: some join compares an integer column holding a value that float64
+    cannot represent with a floating-point column (numpy promotes the pair to float64)."""
+    dsets, ops = case[0], case[1]
+    live = {}
+    for op in ops:
+        if op[0] == "join":
+            live[frozenset((op[1], op[2]))] = op
+        else:
+            live.pop(frozenset((op[1], op[2])), None)
+    for op in live.values():
+        _, a, b, ca, cb = op[:5]
+        for x, y in compared_columns(ca, cb):
+            for (di, ci), (dj, cj) in (((a, x), (b, y)), ((b, y), (a, x))):
+                dti, dtj = dsets[di][0][ci], dsets[dj][0][cj]
+                if kind(dti) == "i" and kind(dtj) == "f":
+                    if any(int(float(r[ci])) != r[ci] for r in dsets[di][2]):
+                        return True
+    return False
+
+
 class GraphFamily(Family):
     """Common machinery; subclasses provide `cases`."""
     batch = 400
     case_timeout = 20.0
+    # failures that carry the signature of a listed known finding do not stop the family early
+    known_findings_uncounted = True
 
     def run_impl(self, case):
         return run_case(case)
@@ -303,7 +369,7 @@ class GraphFamily(Family):
                         if x != x or (x == 0 and np.signbit(x)):
                             special = True
         # coarse on purpose: failures are grouped (and each group shrunk) by this signature
-        return {"nn": "nn" in shapes, "self_join": any(op[0] == "join" and op[1] == op[2] for op in ops),
+        return {"int64_float_inexact": inexact_pairing(case), "nn": "nn" in shapes, "self_join": any(op[0] == "join" and op[1] == op[2] for op in ops),
                 "paired_dtypes_differ": widths_differ, "float_special": special,
                 "py": pyout if isinstance(pyout, str) else pyout[0]}
 
@@ -358,7 +424,7 @@ class CastV(Family):
 
     def cases(self, tier, rng):
         for a, b in _l0_pairs():
-            for c in alphabet(a, special=True, big=True):
+            for c in alphabet(a, special=True, big=True, edge=True):
                 yield [a, b, c]
 
     def run_impl(self, case):
@@ -387,8 +453,8 @@ class EqV(Family):
 
     def cases(self, tier, rng):
         for a, b in _l0_pairs():
-            for x in alphabet(a, special=True, big=True):
-                for y in alphabet(b, special=True, big=True):
+            for x in alphabet(a, special=True, big=True, edge=True):
+                for y in alphabet(b, special=True, big=True, edge=True):
                     yield [a, x, b, y]
 
     def run_impl(self, case):
@@ -399,13 +465,15 @@ class EqV(Family):
         r3 = bool(np.isin(np.repeat(A, 40), np.repeat(B, 40))[0])   # the sort-based code path
         if not (r1 == r2 == r3):
             return ["numpy-inconsistent", r1, r2, r3]
-        return r1
+        # exact equality of the two stored values: python ints / python floats (int == float is exact
+        # in CPython, float32 -> python float is exact), strings by code points; NaN equals nothing
+        return [r1, exact_value(a, x) == exact_value(b, y)]
 
     def line(self, case, pyout):
         return sx(["eqv", case, pyout])
 
     def nontrivial(self, case, po):
-        return po == "T" and case[0] != case[2]
+        return isinstance(po, list) and po[0] == "T" and case[0] != case[2]
 
 
 # ------------------------------------------------------------------------------------------
@@ -499,21 +567,36 @@ class Pair(GraphFamily):
 # join graphs: chains, cycles, self-joins, several evaluators, dict order, link removal
 # ------------------------------------------------------------------------------------------
 
-def make_alpha(rng, special=False, big=False):
+EDGE_CENTRES = [2 ** 24, 2 ** 24, 2 ** 31 - 2, 2 ** 32 - 2, 2 ** 53, 2 ** 53, 2 ** 53, 2 ** 54, -(2 ** 53) - 2, 2 ** 60 + 2 ** 7, 1237648720693755904 + 14,
+                2 ** 62, 2 ** 63 - 3, -2 ** 63, -(2 ** 24) - 2]
+
+
+def edge_cluster(rng):
+    """a few neighbouring integers around an edge of exact representability: they differ in the low
+    bits only, so any lossy promotion (to float32 / float64 / a narrower integer) makes them collide"""
+    c = rng.choice(EDGE_CENTRES)
+    return [v for v in (c - 1, c, c + 1, c + 2, c + 3) if -2 ** 63 <= v < 2 ** 63]
+
+
+def make_alpha(rng, special=False, big=False, edge=False):
     """A small per-case alphabet shared by all datasets of the case (so that keys do match):
-    3 numbers, 3 strings, plus big integers / special floats when asked for."""
+    3 numbers, 3 strings, plus big integers / special floats / an edge cluster when asked for."""
     nums = rng.sample(INT_ALPHA, 3)
     half = rng.random() < 0.3
     strs = rng.sample(STR_ALPHA, 3)
     bigs = rng.sample(INT_BIG, 2) if big else []
     specials = rng.sample(FLT_SPECIAL, 2) if special else []
+    edges = rng.sample(edge_cluster(rng), 3) if edge else []
+    if edge and rng.random() < 0.5:
+        nums = nums[:1]          # mostly edge values, one small one ("small/large mix")
 
     def alpha(dt):
         k = kind(dt)
         if k == "i":
-            return [v for v in nums + bigs if fits(v, dt)] or [0]
+            return [v for v in nums + bigs + edges if fits(v, dt)] or [0]
         if k == "f":
-            return [fbits(float(v), dt) for v in nums] + ([fbits(1.5, dt)] if half else []) + [fbits(v, dt) for v in specials]
+            return [fbits(float(v), dt) for v in nums + [e for e in edges if representable(e, dt)]] + \
+                ([fbits(1.5, dt)] if half else []) + [fbits(v, dt) for v in specials]
         w = int(dt[1:])
         out = [[ord(c) for c in x] for x in strs if len(x) <= w] or [[]]
         if special and w >= 2:
@@ -610,9 +693,9 @@ class Graph(GraphFamily):
         for _ in range(n):
             yield self.random_case(rng)
 
-    def random_case(self, rng, special=False):
+    def random_case(self, rng, special=False, edge=False):
         nds = rng.choice([1, 2, 3, 3, 4, 4])
-        alpha = make_alpha(rng, special=special, big=rng.random() < 0.15)
+        alpha = make_alpha(rng, special=special, big=rng.random() < 0.15, edge=edge)
         dsets = [random_dataset(rng, alpha, nd=True) for _ in range(nds)]
         pairs = topologies(nds)
         topo = rng.choice(["chain", "cycle", "star", "random", "random"])
@@ -699,16 +782,158 @@ class Special(Graph):
             yield self.random_case(rng, special=True)
 
 
+
+# ------------------------------------------------------------------------------------------
+# the edge stratum: key columns of DIFFERENT dtypes inside one dataset x values at the edges of exact
+# representability, in all four shapes - any lossy promotion anywhere in the pipeline (across the
+# columns of one dataset, to the left dtype, to float32 / float64) merges two keys and flips a mask
+# ------------------------------------------------------------------------------------------
+
+# (left columns, right columns); in n-n joins the i-th left column is paired with the i-th right one.
+# No integer column wider than 32 bits is ever *compared with* a float column here (that is EDGE_KNOWN).
+EDGE_DTYPES = {
+    "11": [(["i8"], ["i8"]), (["i4"], ["f4"]), (["u4"], ["f8"]), (["i4"], ["i8"])],
+    "nn": [(["i8", "f8"], ["i8", "f8"]), (["i8", "u4"], ["i8", "u4"]), (["i4", "U2"], ["i4", "U2"]), (["f4", "i8"], ["f4", "i8"]),
+           (["i8", "f4"], ["i8", "f8"]), (["i8", "i4"], ["i8", "f4"]), (["u4", "f4"], ["i8", "f8"]), (["f8", "i8"], ["f4", "i4"])],
+    "1n": [(["i8"], ["i8", "i4"]), (["i4"], ["f4", "i8"]), (["f8"], ["f4", "u4"])],
+    "n1": [(["i8", "i4"], ["i8"]), (["f4", "i8"], ["i4"]), (["u4", "f8"], ["f8"])],
+}
+# known finding F-C11d: an int64 column compared with a float column
+EDGE_KNOWN = {
+    "11": [(["i8"], ["f8"])],
+    "nn": [(["i8", "i8"], ["f8", "i8"])],
+    "1n": [(["i8"], ["f8", "i8"])],
+    "n1": [(["f4", "i8"], ["i8"])],
+}
+# two neighbouring values per dtype that a narrower significand cannot tell apart
+EDGE_ALPHA = {"i8": [2 ** 53, 2 ** 53 + 1], "i4": [2 ** 24, 2 ** 24 + 1], "u4": [2 ** 32 - 1, 2 ** 32 - 2], "i2": [1, 2],
+              "f8": [2.0 ** 53, 2.0 ** 53 + 2], "f4": [2.0 ** 24, 2.0 ** 24 + 2]}
+
+
+def edge_alpha(dt):
+    if kind(dt) == "s":
+        return [[97], [97, 98]]
+    vals = EDGE_ALPHA[dt]
+    return list(vals) if kind(dt) == "i" else [fbits(v, dt) for v in vals]
+
+
+# column classes for the random part: the dtypes a *pair* of compared columns may have
+EDGE_PAIR_CLASSES = [("i8", "i8"), ("i8", "i8"), ("i8", "i4"), ("i8", "u4"), ("i4", "i4"), ("u4", "u4"), ("i4", "u4"), ("i2", "i8"),
+                     ("f8", "f8"), ("f4", "f8"), ("f4", "f4"), ("i4", "f4"), ("i4", "f8"), ("u4", "f4"), ("u4", "f8"), ("i2", "f4"),
+                     ("U2", "U2"), ("U1", "U3")]
+EDGE_KNOWN_CLASSES = [("i8", "f8"), ("i8", "f4")]
+
+
+class Edge(Graph):
+    """Mixed dtypes inside one dataset x values at the edges of exact representability.
+    Exhaustive core: per shape and dtype assignment every 2-row table over a 2-letter edge alphabet
+    (2**53 / 2**53+1 in int64, 2**24 / 2**24+1 in int32, 2**32-1 / 2**32-2 in uint32, 2.0**53 / 2.0**53+2,
+    2.0**24 / 2.0**24+2) on both sides x every selection, both call directions.
+    Random: 2-3 key columns of different dtypes per dataset, values from a cluster of neighbouring
+    integers around an edge plus small values, all four shapes, views; join graphs with edge alphabets.
+    A small sub-stratum (EDGE_KNOWN) compares int64 with float columns: known finding F-C11d."""
+    name = "edge"
+    exhaustive = True
+    budget_share = 3.0
+
+    def core(self, table):
+        for tag, combos in table.items():
+            for (ldt, rdt) in combos:
+                nl, nr = len(ldt), len(rdt)
+                rowsL = [list(r) for r in itertools.product(*[edge_alpha(dt) for dt in ldt])]
+                rowsR = [list(r) for r in itertools.product(*[edge_alpha(dt) for dt in rdt])]
+                k = 0
+                for tl in itertools.product(rowsL, repeat=2):
+                    for tr in itertools.product(rowsR, repeat=2):
+                        for sel in ([True, False], [False, True], [True, True]):
+                            k += 1
+                            how = "name" if k % 3 == 1 else "key"
+                            skind = ("ineq", "elem", "table")[k % 3]
+                            left = [ldt, [2], [list(r) for r in tl], None]
+                            right = [rdt, [2], [list(r) for r in tr], list(sel)]
+                            ca, cb = list(range(nl)), list(range(nr))
+                            op = ["join", 1, 0, cb, ca, how] if k % 2 == 0 else ["join", 0, 1, ca, cb, how]
+                            yield [[left, right], [op], [0, None], skind]
+
+    def random_pair(self, rng, known=False):
+        tag = rng.choice(["nn", "nn", "nn", "11", "1n", "n1"])
+        ncol = rng.choice([2, 2, 3])
+        pool = [v for v in edge_cluster(rng)]
+        small = rng.sample([0, 1, 2, 3, -1], 2)
+
+        def values(dt, n):
+            if kind(dt) == "s":
+                al = [[97], [98], [97, 98]][:2 + (int(dt[1:]) > 1)]
+            elif kind(dt) == "i":
+                al = [v for v in pool + small if fits(v, dt)]
+            else:
+                al = [fbits(float(v), dt) for v in pool + small if representable(v, dt)]
+            return [rng.choice(al) for _ in range(n)]
+        nL, nR = rng.randint(1, 5), rng.randint(1, 5)
+        if tag == "nn":
+            for _ in range(20):
+                classes = [rng.choice(EDGE_PAIR_CLASSES) for _ in range(ncol)]
+                if known:
+                    classes[rng.randrange(ncol)] = rng.choice(EDGE_KNOWN_CLASSES)
+                classes = [c if rng.random() < 0.5 else c[::-1] for c in classes]
+                ldt, rdt = [c[0] for c in classes], [c[1] for c in classes]
+                if len(set(ldt)) > 1 or len(set(rdt)) > 1:      # different dtypes inside a dataset
+                    break
+        else:
+            # one key against 1-3 keys of different dtypes (numbers)
+            for _ in range(50):
+                single = rng.choice(["i8", "i4", "u4", "f8", "f4"])
+                many = [rng.choice(["i8", "i8", "i4", "u4", "f8", "f4", "i2"]) for _ in range(1 if tag == "11" else ncol)]
+                bad = any((single, m) in EDGE_KNOWN_CLASSES or (m, single) in EDGE_KNOWN_CLASSES for m in many)
+                if bad == known and (tag == "11" or len(set(many)) > 1):
+                    break
+            ldt, rdt = ([single], many) if tag in ("11", "1n") else (many, [single])
+        rowsL = [list(r) for r in zip(*[values(dt, nL) for dt in ldt])]
+        rowsR = [list(r) for r in zip(*[values(dt, nR) for dt in rdt])]
+        sel = [rng.random() < rng.choice([0.5, 0.5, 1.0]) for _ in range(nR)]
+        ca, cb = list(range(len(ldt))), list(range(len(rdt)))
+        how = rng.choice(["key", "name"] + (["link"] if len(ca) == 1 and len(cb) == 1 else []))
+        op = ["join", 1, 0, cb, ca, how] if rng.random() < 0.5 else ["join", 0, 1, ca, cb, how]
+        view = random_view(rng, [nL]) if rng.random() < 0.4 else None
+        return [[[ldt, [nL], rowsL, None], [rdt, [nR], rowsR, sel]], [op], [0, view], rng.choice(["table", "ineq", "elem"])]
+
+    def cases(self, tier, rng):
+        yield from self.core(EDGE_DTYPES)
+        yield from self.core(EDGE_KNOWN)
+        n = 3000 if tier == "quick" else 40000
+        for it in range(n):
+            r = it % 20
+            if r < 13:
+                yield self.random_pair(rng)
+            elif r == 13:
+                yield self.random_pair(rng, known=True)
+            else:
+                # join graphs (chains, cycles, all shapes, 2-d data, views) over edge alphabets; a graph
+                # that compares an unrepresentable int64 with a float column (F-C11d) is mostly redrawn
+                case = self.random_case(rng, edge=True)
+                if inexact_pairing(case) and rng.random() < 0.8:
+                    case = self.random_case(rng, edge=True)
+                    if inexact_pairing(case):
+                        case = self.random_case(rng)
+                yield case
+
+    def describe(self, case):
+        return {"datasets": [d[:3] for d in case[0]], "own": [d[3] for d in case[0]], "ops": case[1], "query": case[2], "state": case[3]}
+
+
 PROP = Property(
     id="C11",
     title="Key joins propagate selections by key membership, in all four join shapes",
     theorems=["C11.join_terminates", "C11.join_terminates_flags", "C11.join_first_path", "C11.join_incompatible_iff", "C11.paths_iff_joinPath",
               "C11.join_1_1", "C11.join_1_n", "C11.join_n_1", "C11.join_n_n", "C11.enc_injective", "C11.stripZ_injective",
-              "C11.bytes_eq_iff_tuple_eq", "C11.join_chain", "C11.join_view", "C11.impl_eq_spec", "C11.join_correct",
-              "C11.nn_dtype_mismatch", "C11.nn_dtype_false_positive", "C11.nn_string_width_mismatch", "C11.nn_float_specials"],
-    families=[CastV(), EqV(), Pair(), Graph(), Special()],
+              "C11.bytes_eq_iff_tuple_eq", "C11.join_chain", "C11.join_view", "C11.impl_eq_np", "C11.np_eq_spec", "C11.impl_eq_spec",
+              "C11.spec_rowMatch_imp_np", "C11.join_correct",
+              "C11.nn_dtype_mismatch", "C11.nn_dtype_false_positive", "C11.nn_string_width_mismatch", "C11.nn_float_specials",
+              "C11.nn_mixed_columns_exact", "C11.int64_float_promotion"],
+    families=[CastV(), EqV(), Pair(), Graph(), Edge(), Special()],
     trusted_base=["numpy promotion (np.result_type), astype, item byte layout and == / np.isin are modelled (L0) and validated exhaustively on the generated alphabets by the castv / eqv families",
                   "a view is represented on the Lean side by the flat positions numpy takes for it (np.arange(n).reshape(shape)[view])"],
-    assumptions=["numpy behaves as its L0 model (common / cast / enc / veq) on the explored dtypes: i1-i8, u1-u4, f4, f8, U1-U6; no float16, bool, uint64, datetime or object keys; a string key column is never paired with a numeric one"],
-    rule="L0: every (dtype, dtype, item) over the alphabets; pair: every 2-row table over a 2-letter alphabet per shape and dtype assignment x every selection, then seeded random tables with views; graph: every join set / creation order / evaluator set / queried dataset on 3 datasets, 4-chains and 4-cycles both directions, then seeded random graphs (all shapes, mixed dtypes, 2-d data, views, JoinLink add/remove, overwritten joins, self-joins); special: -0.0 / NaN / inf / NUL strings. non-trivial = the queried dataset cannot evaluate the selection itself and at least one of its rows is selected through a join",
+    assumptions=["numpy behaves as its L0 model (common / cast incl. round-to-nearest-even int64->float64 / enc / veq) on the explored dtypes: i1-i8, u1-u4, f4, f8, U1-U6; no float16, bool, uint64, datetime or object keys; a string key column is never paired with a numeric one",
+                 "exact equality by value (veqX) = numpy's promoted comparison restricted to value-preserving promotions; validated against exact python int / float comparison by eqv on the edge alphabets"],
+    rule="L0: every (dtype, dtype, item) over the alphabets; pair: every 2-row table over a 2-letter alphabet per shape and dtype assignment x every selection, then seeded random tables with views; graph: every join set / creation order / evaluator set / queried dataset on 3 datasets, 4-chains and 4-cycles both directions, then seeded random graphs (all shapes, mixed dtypes, 2-d data, views, JoinLink add/remove, overwritten joins, self-joins); edge: key columns of different dtypes inside one dataset x values at the edges of exact representability (2**24+-, 2**32-, 2**53+-, 2**63-, small/large mix) - every 2-row table over a 2-letter edge alphabet per shape and dtype assignment, then seeded random mixed-dtype tables and join graphs; special: -0.0 / NaN / inf / NUL strings. non-trivial = the queried dataset cannot evaluate the selection itself and at least one of its rows is selected through a join",
 )
